@@ -28,6 +28,8 @@ Post == /\ s' = (IF Has("bin") THEN StrToBits(E.bin) ELSE s)
 Consume == /\ l' = l + 1 /\ seg' = seg
            /\ TLCSet(seg, l + 1 - seg)
 
+\* width of a (#<= n) field: the length of n in bits; the bound arrives as decimal text (it may exceed a TLC integer)
+LimW == Len(Mag(E.ns))
 WriteBitsOf ==
   CASE E.k = "WriteBit"       -> <<E.b>>
     [] E.k = "WriteUint"      -> UBits(E.v, E.w)
@@ -37,7 +39,7 @@ WriteBitsOf ==
     [] E.k = "WriteByte"      -> UBits(E.v, 8)
     [] E.k = "WriteBytes"     -> BytesToBits(HexToBytes(E.hex))
     [] E.k = "WriteUnary"     -> UnaryBits(E.n)
-    [] E.k = "WriteLimUint"   -> UBits(E.v, BitLen(E.n))
+    [] E.k = "WriteLimUint"   -> UBits(E.v, LimW)
     [] E.k = "WriteBitString" -> StrToBits(E.bits)
 WriteKinds == {"WriteBit","WriteUint","WriteInt","WriteBigUint","WriteBigInt","WriteByte",
                "WriteBytes","WriteUnary","WriteLimUint","WriteBitString"}
@@ -47,7 +49,7 @@ InDomain ==
   CASE E.k \in {"WriteUint","WriteBigUint"} -> UFits(E.v, E.w)
     [] E.k \in {"WriteInt","WriteBigInt"}   -> E.w >= 1 /\ SFits(E.v, E.w)
     [] E.k = "WriteByte"                    -> UFits(E.v, 8)
-    [] E.k = "WriteLimUint"                 -> UFits(E.v, BitLen(E.n))
+    [] E.k = "WriteLimUint"                 -> UFits(E.v, LimW)
     [] OTHER -> TRUE
 
 TWrite == /\ E.k \in WriteKinds /\ InDomain /\ Post /\ Write(WriteBitsOf, Ok)
@@ -63,7 +65,7 @@ ReadW == CASE E.k \in {"ReadBit"} -> 1
            [] E.k = "ReadBytes" -> 8 * E.n
            [] E.k \in {"ReadBits","Skip"} -> E.n
            [] E.k = "ReadRemainingBits" -> Avail
-           [] E.k = "ReadLimUint" -> BitLen(E.n)
+           [] E.k = "ReadLimUint" -> LimW
 ReadKinds == {"ReadBit","ReadUint","PickUint","ReadInt","ReadBigUint","ReadBigInt","ReadByte",
               "ReadBytes","ReadBits","Skip","ReadRemainingBits","ReadLimUint"}
 OutMatches ==
